@@ -41,7 +41,10 @@ def diffs : List Int → List Int
 def whereIdx (p : α → Bool) (l : List α) : List Nat :=
   (l.zipIdx.filter (fun x => p x.1)).map (·.2)
 
-def findTurnsNumpy (s : List Int) : List Pt :=
+/- The transcription of `find_turns` as it was before repair c6242ee: turning points are recognised by the sign of the
+PRODUCT of neighbouring differences (over the integers, where a product cannot underflow, the same thing - proved in
+`Proofs/Lemmas/RainflowNumpy.lean`; on doubles the product underflowed for small signals). -/
+def findTurnsNumpyProd (s : List Int) : List Pt :=
   let d := diffs s
   let n := d.length
   let dA := d.toArray
@@ -57,6 +60,28 @@ def findTurnsNumpy (s : List Int) : List Pt :=
       let ends := if cutEnds then ends0.tail else ends0
       let starts := if cutStarts then starts0.dropLast else starts0
       ((starts.zip ends).filter fun (st, en) => dA[st]! * dA[en+1]! < 0).map (·.1)
+  let sA := s.toArray
+  ((List.range (n - 1)).filter fun i => peak[i]! || plateauIdx.contains i).map
+    fun i => (i + 1, sA[i+1]!)
+
+/-- The transcription of `find_turns` as it is now: the SIGNS of neighbouring differences are multiplied
+(`np.sign(diffs)[:-1] * np.sign(diffs)[1:] < 0`, and likewise across a plateau). -/
+def findTurnsNumpy (s : List Int) : List Pt :=
+  let d := diffs s
+  let n := d.length
+  let dA := d.toArray
+  let peak : List Bool := (List.range (n - 1)).map fun i => dA[i]!.sign * dA[i+1]!.sign < 0
+  let dup : List Int := d.map fun x => if x = 0 then 1 else 0
+  let edges := diffs dup
+  let starts0 := whereIdx (fun e => e > 0) edges
+  let ends0 := whereIdx (fun e => e < 0) edges
+  let plateauIdx : List Nat :=
+    if starts0.isEmpty || ends0.isEmpty then [] else
+      let cutEnds := ends0.head! < starts0.head!
+      let cutStarts := starts0.getLast! > ends0.getLast!
+      let ends := if cutEnds then ends0.tail else ends0
+      let starts := if cutStarts then starts0.dropLast else starts0
+      ((starts.zip ends).filter fun (st, en) => dA[st]!.sign * dA[en+1]!.sign < 0).map (·.1)
   let sA := s.toArray
   ((List.range (n - 1)).filter fun i => peak[i]! || plateauIdx.contains i).map
     fun i => (i + 1, sA[i+1]!)
